@@ -540,6 +540,9 @@ def run_shard(args):
             for p in run_tuple_key_join(seed * 53 + i):
                 oracle_bad.append({'desc': p['desc'], 'diffs': [['tuple-key-join', p['msg']]]})
         stats['tuple_key_join_cases'] = max(2, n // 3)
+        for i in range(max(2, n // 3)):
+            for p in run_mixed_numeric_join(seed * 61 + i):
+                oracle_bad.append({'desc': p['desc'], 'diffs': [['mixed-numeric-join', p['msg']]]})
     if kinds and 'groupby' in kinds:
         for i in range(max(2, n // 4)):
             for p in run_typed_groupby(seed * 59 + i):
@@ -720,4 +723,33 @@ def run_typed_groupby(seed):
             problems.append({'desc': {'values': val}, 'msg': f'GroupBy over tuple-valued labels: the groups hold {allm}, the entries are {sorted(ids)}'})
     except Exception as e:
         problems.append({'desc': {'values': val}, 'msg': 'GroupBy by a tuple-valued field raised ' + exc_name(e) + ': ' + str(e)[:150]})
+    return problems
+
+
+def run_mixed_numeric_join(seed):
+    """Join on one field whose values are comparable numbers of different types on the two sides (int / float / numpy integers / bool): the ids
+    are the sorted keys selected by the mode, in the order of the keys themselves (C16)"""
+    import numpy as np
+    from . import paths as paths_
+    paths_.use_repo()
+    import connectome as c
+    rng = random.Random(seed)
+    lk = rng.sample([1, 3, 5, 12, 30], rng.randint(2, 4))
+    conv = rng.choice([float, np.int64, np.float32, lambda v: v])
+    rk = [conv(v) for v in rng.sample([2, 4, 12, 25, 3], rng.randint(2, 4))]
+    lmap = {f'l{j}': v for j, v in enumerate(lk)}
+    rmap = {f'r{j}': v for j, v in enumerate(rk)}
+    left = c.Transform(ids=c.meta((lambda t: lambda: t)(tuple(lmap))), id=lambda id: id, num=lambda id: lmap[id], x=lambda id: 'x-' + id)
+    right = c.Transform(ids=c.meta((lambda t: lambda: t)(tuple(rmap))), id=lambda id: id, num=lambda id: rmap[id], z=lambda id: 'z-' + id)
+    how = rng.choice(['inner', 'left', 'right', 'outer'])
+    problems = []
+    try:
+        got = tuple(c.Join(left, right, 'num', how=how).ids)
+        ls, rs = set(lk), set(rk)
+        want = sorted({'inner': ls & rs, 'left': ls, 'right': rs, 'outer': ls | rs}[how])
+        if [float(v) for v in got] != [float(v) for v in want]:
+            problems.append({'desc': {'left': lk, 'right': [repr(v) for v in rk], 'how': how},
+                             'msg': f'Join(how={how!r}) on a numeric field ({lk} vs {[repr(v) for v in rk]}): ids {got!r}, the sorted keys of the mode are {want!r}'})
+    except Exception as e:
+        problems.append({'desc': {'left': lk, 'right': [repr(v) for v in rk], 'how': how}, 'msg': 'Join on a numeric field raised ' + exc_name(e) + ': ' + str(e)[:150]})
     return problems
